@@ -67,14 +67,11 @@ func boundaryRec(typ uint16, fc fillClass, n, variant int) wm.Rec {
 		case wm.Params:
 			if variant == 0 {
 				var alpn []byte
-				for left := n; left > 0; {
+				// (an empty alpn id is refused, so a single octet left over is dropped: n-1 octets then)
+				for left := max(n, 2); left > 1; {
 					l := min(left-1, 255)
 					alpn = append(append(alpn, byte(l)), fc.fill(l)...)
 					left -= l + 1
-				}
-				// (an empty alpn id is refused: keep the last id non-empty)
-				if len(alpn) >= 1 && alpn[len(alpn)-1] == 0 && len(alpn) >= 2 {
-					alpn = alpn[:len(alpn)-1]
 				}
 				f.Opts = []wm.Option{{Code: 1, Data: alpn}, {Code: 5, Data: fc.fill(n)}, {Code: 7, Data: fc.fill(n)}, {Code: 65280, Data: fc.fill(n)}}
 			} else {
